@@ -24,6 +24,69 @@ pub fn bytes_list(b: &[u8]) -> String {
     n_list(b.iter().map(|x| *x as u64))
 }
 
+/// Lossless run-length form of a byte string: [(count, unit)] whose expansion is the string.
+/// Generic (it knows nothing of how the bytes were made): at each position the shortest period
+/// <= 32 whose repetition covers at least 48 bytes (and 4 periods) becomes a run, everything else is
+/// literal.  Long texts made of repeated lines stay small as Coq literals this way.
+pub fn rle(b: &[u8]) -> Vec<(usize, Vec<u8>)> {
+    let n = b.len();
+    let mut out: Vec<(usize, Vec<u8>)> = Vec::new();
+    let mut lit = 0usize;
+    let mut i = 0usize;
+    while i < n {
+        let mut best: (usize, usize) = (0, 0);
+        for p in 1..=32usize {
+            if i + 2 * p > n {
+                break;
+            }
+            if b[i + p..i + 2 * p] != b[i..i + p] {
+                continue;
+            }
+            let mut k = 2;
+            while i + (k + 1) * p <= n && b[i + k * p..i + (k + 1) * p] == b[i..i + p] {
+                k += 1;
+            }
+            if k >= 4 && k * p >= 48 && k * p > best.0 * best.1 {
+                best = (k, p);
+            }
+        }
+        if best.0 > 0 {
+            if lit < i {
+                out.push((1, b[lit..i].to_vec()));
+            }
+            out.push((best.0, b[i..i + best.1].to_vec()));
+            i += best.0 * best.1;
+            lit = i;
+        } else {
+            i += 1;
+        }
+    }
+    if lit < n {
+        out.push((1, b[lit..n].to_vec()));
+    }
+    out
+}
+
+pub fn unrle(segs: &[(usize, Vec<u8>)]) -> Vec<u8> {
+    let mut o = Vec::new();
+    for (k, u) in segs {
+        for _ in 0..*k {
+            o.extend_from_slice(u);
+        }
+    }
+    o
+}
+
+/// a byte string as a Coq `list N`: the plain list when short, `(RLE [(count, unit); ..])` when long
+pub fn bytes_term(b: &[u8]) -> String {
+    if b.len() <= 512 {
+        return bytes_list(b);
+    }
+    let segs = rle(b);
+    debug_assert!(unrle(&segs) == b);
+    format!("(RLE {})", list(segs.iter().map(|(k, u)| format!("({}, {})", k, bytes_list(u)))))
+}
+
 pub fn z(v: i128) -> String {
     if v < 0 {
         format!("({})%Z", v)
